@@ -328,6 +328,7 @@ type result struct {
 	t1            string
 	nodes         int
 	unsafeDescs   []string
+	allDescs      []string
 	safeDescs     int
 	malformed     bool
 	tokenMismatch bool
@@ -359,6 +360,7 @@ func evaluate(drv *hx.Driver, src string) (res result) {
 	}
 	var descs []string
 	descriptions(j0, &descs)
+	res.allDescs = descs
 	for _, s := range descs {
 		if ok, why := descBlockSafe(s); ok {
 			res.safeDescs++
@@ -491,7 +493,7 @@ func main() {
 		return
 	}
 	defer drv.Close()
-	run.Res.Rule = "documents the real parser accepts, from (a) gen.DocGen (executable + type-system, Exotic on), (b2) multi-line descriptions built line by line (interior lines empty / 1..5 spaces / tabs / mixed whitespace / content with leading or trailing spaces) in every description slot of every describable node kind at nesting levels 0, 1, 2, (b) a string-content stream (string values and descriptions built from quotes, backslashes, every control character, DEL, non-BMP / non-printable code points, invalid UTF-8, block strings with quotes / escaped triple quotes / newlines / indentation, placed in arguments, defaults, nested lists/objects, directive arguments on every definition kind), (c) a fixed corpus of edge documents; non-trivial = the AST has >= 6 astjson nodes; distinct by source text"
+	run.Res.Rule = "documents the real parser accepts, from (a) gen.DocGen (executable + type-system, Exotic on), (b2) descriptions of chosen length classes (1..59, 60..70, 71..80, 81..200, 201..1024, > 1 KB bytes; single- and multi-line; leading / trailing spaces and tabs, internal runs of spaces, whitespace-only lines, whitespace only) and multi-line descriptions built line by line (interior lines empty / 1..5 spaces / tabs / mixed whitespace / content with leading or trailing spaces) in every description slot of every describable node kind at nesting levels 0, 1, 2, (b) a string-content stream (string values and descriptions built from quotes, backslashes, every control character, DEL, non-BMP / non-printable code points, invalid UTF-8, block strings with quotes / escaped triple quotes / newlines / indentation, placed in arguments, defaults, nested lists/objects, directive arguments on every definition kind), (c) a fixed corpus of edge documents; non-trivial = the AST has >= 6 astjson nodes; distinct by source text"
 
 	one := func(c caseT) {
 		src := c.src()
@@ -574,7 +576,7 @@ func main() {
 		one(mkCase(stringDoc(r), "strings"))
 	}
 	// (b2) multi-line descriptions on every describable node kind at every nesting level
-	md := run.N(3000, 120000)
+	md := run.N(4000, 120000)
 	for i := 0; i < md && !run.TooManyViolations(); i++ {
 		r := hx.Fork(run.Seed^0x165667b1, i)
 		one(mkCase(descDoc(r), "descriptions"))
@@ -762,6 +764,57 @@ func tagDocument(run *hx.Run, src string, res result) {
 		run.Tag("printed-has:multi-line-description")
 	}
 	tagBlockDescriptions(run, res.t1)
+	tagDescriptionShapes(run, res.allDescs)
+}
+
+// tagDescriptionShapes: per document, which description shapes occur — length class (bytes; 70 and 80 are common
+// wrap thresholds of printers), single line or several, block-safe or not, leading / trailing whitespace.
+func tagDescriptionShapes(run *hx.Run, descs []string) {
+	seen := map[string]bool{}
+	for _, d := range descs {
+		var lc string
+		switch n := len(d); {
+		case n == 0:
+			lc = "0"
+		case n < 60:
+			lc = "1-59"
+		case n <= 70:
+			lc = "60-70"
+		case n <= 80:
+			lc = "71-80"
+		case n <= 200:
+			lc = "81-200"
+		case n <= 1024:
+			lc = "201-1024"
+		default:
+			lc = ">1KB"
+		}
+		lines := "single-line"
+		if strings.Contains(d, "\n") {
+			lines = "multi-line"
+		}
+		safe, _ := descBlockSafe(d)
+		form := "quoted"
+		if safe {
+			form = "block"
+		}
+		seen["description-shape:"+lines+":len-"+lc+":"+form] = true
+		if d != "" && (d[0] == ' ' || d[0] == '\t') {
+			seen["description-shape:"+lines+":len-"+lc+":"+form+":leading-whitespace"] = true
+		}
+		if d != "" && (d[len(d)-1] == ' ' || d[len(d)-1] == '\t') {
+			seen["description-shape:"+lines+":"+form+":trailing-whitespace"] = true
+		}
+		if strings.Contains(d, "   ") {
+			seen["description-shape:"+lines+":"+form+":internal-run-of-spaces"] = true
+		}
+		if d != "" && strings.Trim(d, " \t\n") == "" {
+			seen["description-shape:whitespace-only"] = true
+		}
+	}
+	for k := range seen {
+		run.Tag(k)
+	}
 }
 
 // tagBlockDescriptions looks at the printed multi-line block strings: nesting level (indentation of the opening
@@ -971,12 +1024,79 @@ func multiLineDesc(r *hx.Rng) string {
 	return regularLiteral(r, strings.Join(lines, "\n")) + r.Pick([]string{" ", "\n"})
 }
 
+// sizedDesc: a description of a chosen length class — around and beyond the widths at which printers wrap (60..200
+// bytes), and > 1 KB — single line or several, with leading / trailing spaces and tabs, internal runs of spaces,
+// leading whitespace on the first line, whitespace-only lines, or whitespace only.
+func sizedDesc(r *hx.Rng) string {
+	target := 0
+	switch r.Intn(8) {
+	case 0:
+		target = r.Range(1, 59)
+	case 1:
+		target = r.Range(60, 70)
+	case 2:
+		target = r.Range(71, 80)
+	case 3, 4:
+		target = r.Range(81, 200)
+	case 5:
+		target = r.Range(201, 1024)
+	case 6:
+		target = r.Range(1025, 3000)
+	default:
+		target = []int{69, 70, 71, 72, 79, 80, 81, 100, 120, 121}[r.Intn(10)]
+	}
+	ws := func() string {
+		return r.Pick([]string{" ", "  ", "    ", "\t", " \t", "\t "})
+	}
+	if r.Chance(1, 25) { // whitespace only
+		var b strings.Builder
+		for b.Len() < target {
+			b.WriteString(r.Pick([]string{" ", "\t", "  ", "\n", " \n "}))
+		}
+		return regularLiteral(r, b.String()) + "\n"
+	}
+	words := []string{"a", "the", "description", "of", "field", "x y", "é", "say \"hi\"", "#", "1,2", "{}", "日本", "\\"}
+	var b strings.Builder
+	multi := r.Chance(1, 3)
+	if r.Chance(1, 3) {
+		b.WriteString(ws()) // leading whitespace (on the first line)
+	}
+	for b.Len() < target {
+		b.WriteString(r.Pick(words))
+		if b.Len() >= target {
+			break
+		}
+		switch k := r.Intn(12); {
+		case k == 0:
+			b.WriteString(strings.Repeat(" ", r.Range(2, 6))) // internal run of spaces
+		case k == 1:
+			b.WriteString("\t")
+		case k == 2 && multi:
+			b.WriteString("\n")
+			if r.Chance(1, 3) {
+				b.WriteString(ws()) // indented continuation line
+			}
+		case k == 3 && multi:
+			b.WriteString("\n" + ws() + "\n") // whitespace-only line
+		default:
+			b.WriteString(" ")
+		}
+	}
+	if r.Chance(1, 5) {
+		b.WriteString(ws()) // trailing whitespace
+	}
+	return regularLiteral(r, b.String()) + r.Pick([]string{" ", "\n"})
+}
+
 // descDoc: a type-system definition with a multi-line description in every description slot (definition, field,
 // argument, enum value, input field, directive argument: nesting levels 0, 1 and 2).
 func descDoc(r *hx.Rng) string {
 	d := func() string {
 		if r.Chance(1, 8) {
 			return ""
+		}
+		if r.Chance(2, 5) {
+			return sizedDesc(r)
 		}
 		return multiLineDesc(r)
 	}
@@ -1031,7 +1151,9 @@ func descDoc(r *hx.Rng) string {
 
 // descLit: an optional description followed by a separator
 func descLit(r *hx.Rng) string {
-	switch r.Intn(6) {
+	switch r.Intn(7) {
+	case 6:
+		return sizedDesc(r)
 	case 5:
 		return multiLineDesc(r)
 	case 0:
